@@ -162,17 +162,22 @@ def explicit_spec(op, sa, sb, sr, T):
 def worker(ctx):
     T = ctx.spec.payload['T']
     for d in ctx.spec.payload['obs']:
+        engine.guarded(ctx, d['id'], lambda d=d: one(ctx, T, d))
+
+
+def one(ctx, T, d):
+    if True:
         if d['kind'] == 'skip':
             o = ctx.ob(d['id'], 'skipped', 'BIT', d['id'])
             o.reason = d['why']
-            continue
+            return
         w = ctx.byname[d['impl']]
         r = ctx.result(d['impl'])
         if d['kind'] == 'binary':
             o = ctx.ob(d['id'], 'operator', 'BIT', '%s: stored result == correctly rounded component-wise %s of the stored operands' % (d['id'], d['op']))
             if r is None or r.error or any(t is None for t in r.out):
                 o.reason = ctx.why_missing(d['impl'])
-                continue
+                return
             spec = explicit_spec(d['op'], d['sa'], d['sb'], d['sr'], T)
             if spec is not None:
                 ctx.bit_equal(o, r.out, spec, w, key=d['id'], replay=ctx.native_term_replay(w, spec))
@@ -181,7 +186,7 @@ def worker(ctx):
                 o.desc = '%s: stored result == the same operator applied to the operands\' Value() objects' % d['id']
                 if rr is None or rr.error:
                     o.reason = 'reference: ' + ctx.why_missing(d['ref'])
-                    continue
+                    return
                 ctx.bit_equal(o, r.out, rr.out, w, key=d['id'], replay=ctx.native_pair_replay(w, ctx.byname[d['ref']]))
             check_ub(ctx, d, r)
         elif d['kind'] == 'compound':
@@ -189,11 +194,11 @@ def worker(ctx):
                        '%s: from an arbitrary stored pre-state v, v %s= b leaves exactly v %s b (one inductive step)' % (d['id'], d['op'], d['op']))
             if r is None or r.error or any(t is None for t in r.out):
                 o.reason = ctx.why_missing(d['impl'])
-                continue
+                return
             spec = explicit_spec(d['op'], d['sa'], d['sb'], d['sa'], T)
             if spec is None:
                 o.reason = 'no component-wise reading for shapes %d,%d' % (d['sa'], d['sb'])
-                continue
+                return
             ctx.bit_equal(o, r.out, spec, w, key=d['id'], replay=ctx.native_term_replay(w, spec))
             check_ub(ctx, d, r)
         elif d['kind'] == 'twin':
@@ -201,13 +206,13 @@ def worker(ctx):
             rt = ctx.result(d['twin'])
             if r is None or r.error or rt is None or rt.error:
                 o.reason = ctx.why_missing(d['impl'] if (r is None or r.error) else d['twin'])
-                continue
+                return
             ctx.bit_equal(o, r.out, rt.out, w, key=d['id'], replay=ctx.native_pair_replay(w, ctx.byname[d['twin']]))
         elif d['kind'] == 'mathfn':
             o = ctx.ob(d['id'], 'math-overload', 'BIT', '%s returns exactly that function of the stored number' % d['id'])
             if r is None or r.error or r.out[0] is None:
                 o.reason = ctx.why_missing(d['impl'])
-                continue
+                return
             x0 = tm.arg(T, 'x0')
             fn = 'fabs' if d['fn'] == 'abs' else d['fn']
             spec = [mk('call', T, fn, x0, tm.arg(T, 'x1'))] if fn == 'pow' else [mk('call', T, fn, x0)]
